@@ -1,4 +1,4 @@
-SPECIFICATION Spec
+SPECIFICATION MCSpec
 CONSTANTS
   NT = 2
   NX = 1
@@ -7,9 +7,16 @@ CONSTANTS
   MaxCommits = 4
   MaxLocks = 1
   RcRoots = FALSE
+  AO = FALSE
   Fine = TRUE
+  MaxDefers = 2
   Fix = {"F18"}
+  Mut = {}
   Shapes <- ShapesTiny
+  GenLen = 1
+  RejW = 6
+  Pipes = {}
 INVARIANTS TypeOK NoCorrupt ReaderStable IdealVisible XVisible FinalState
 VIEW ViewNoHist
+CONSTRAINT DeferBound
 CHECK_DEADLOCK FALSE
